@@ -125,6 +125,12 @@ impl Shape {
             if follow {
                 recs.push((100 + i * 5 + 1, once, cx.rng.below(50)));
                 cx.count("records followed by their own once-composed spelling");
+            } else if !crowd && cx.rng.chance(1, 6) {
+                let reduced = oracle::reduce_once(lang, &recs[recs.len() - 1].1);
+                if reduced != recs[recs.len() - 1].1 {
+                    recs.push((100 + i * 5 + 2, reduced, cx.rng.below(50)));
+                    cx.count("records followed by their own once-reduced spelling");
+                }
             }
         }
         if crowd {
@@ -152,13 +158,17 @@ impl Shape {
         let (mut wa, mut wb) = if self.0 != Which::Titles && cx.rng.chance(1, 3) { (cx.rng.range(1, 3), cx.rng.range(1, 3)) } else { (1, 1) };
         let (mut wide_l, mut wide_r): (String, String) = ((0..wa).map(|_| S1).collect(), (0..wb).map(|_| S2).collect());
         let mut st = St::build(lang, &recs, limit, (&wide_l, &wide_r));
+        // the first judged query is chosen now: an earlier life of the store may end with exactly this query
+        let first_q = shape_query(&mut cx.rng, lang, &st.store.lang, &recs, self.0);
         if cx.rng.chance(1, 6) && !crowd {
-            // the store had another life before: other records, a search, then emptied and filled with the judged records
+            // the store had another life before: other records (as many as now, or some other number), the query that
+            // will be judged first, then emptied and filled with the judged records
             st.store.clear();
-            for k in 0..cx.rng.range(1, 8) {
+            let k_other = if cx.rng.chance(1, 2) { recs.len() } else { cx.rng.range(1, 8) };
+            for k in 0..k_other {
                 st.add(&(9000 + k, shape_title(&mut cx.rng, lang, &corpus), 1));
             }
-            let _ = st.search(recs.get(0).map(|r| r.1.as_str()).unwrap_or("a"));
+            let _ = st.search(&first_q);
             st.store.clear();
             for r in &recs {
                 st.add(r);
@@ -179,7 +189,9 @@ impl Shape {
         let toks: Vec<TextOwn> = recs.iter().map(|r| reference_tok(lang, &r.1)).collect();
         let rgrams: Vec<BTreeSet<oracle::Gram>> = toks.iter().map(oracle::grams_of).collect();
         for qk in 0..8 {
-            let q = if let (Some(pq), 1) = (&planted, qk) {
+            let q = if qk == 0 && !crowd {
+                first_q.clone()
+            } else if let (Some(pq), 1) = (&planted, qk) {
                 pq.clone()
             } else if crowd && self.0 == Which::Related && qk < 4 {
                 // a session on a crowded store: the common word (touches more records than any candidate cap),
